@@ -60,7 +60,11 @@ impl<F: Fn(u64) -> usize> Iterator for FindChangePoints<F> {
             if new_val != self.prev_value {
                 break;
             }
-            step *= 2;
+            step = match step.checked_mul(2) {
+                Some(step) => step,
+                // No change point within reach
+                None => return None,
+            };
         }
 
         // Binary search in the last exponential step to find exact change point
